@@ -440,12 +440,13 @@ def match_known(ctx, sig, msg, harness=None):
 
 def run_fuzz(ctx, t):
     """t: dict(name, bin, seconds, workers, seeds=[bytes], dict=path|None, max_len, env, hang_is_violation, empty_corpus_workers)"""
-    name, binp = t["name"], t["bin"]
+    name, binp = t.get("tag", t["name"]), t["bin"]
+    regname = t["name"]
     env0 = base_env()
     env0.update(t.get("env", {}))
     # replay tier for raw artifacts
     by_replay = {os.path.normpath(os.path.join(VERIF, k["replay"])): k for k in ctx.known if k.get("replay")}
-    for f in sorted(glob.glob(os.path.join(VERIF, "regress", ctx.pid, name, "*"))):
+    for f in sorted(glob.glob(os.path.join(VERIF, "regress", ctx.pid, regname, "*"))):
         fails, sig, msg = fuzz_replay(binp, f, env0, repeat=2)
         k = by_replay.get(os.path.normpath(f))
         entry = {"file": os.path.relpath(f, VERIF), "verdict": "fail" if fails == 2 else "flaky" if fails else "pass", "signature": sig}
